@@ -59,7 +59,7 @@ func init() {
 	}
 	intrinsics["go.sia.tech/core/types.expToUnit"] = func(x *Exec, fv FuncV, a []Value) Value { return Ptr{} }
 	bi("SetBytes", func(x *Exec, fv FuncV, a []Value) Value {
-		b := x.sliceBytes(a[1].(SliceV))
+		b := x.sliceBytes(x.sl(a[1]))
 		if len(b) == 0 {
 			return x.bigSet(a[0], x.ts.ConstU(bigW, 0))
 		}
@@ -137,7 +137,7 @@ func init() {
 		return x.ts.Eq(x.ts.Extract(x.bigGet(a[0]), bigW-1, 63), x.ts.ConstU(bigW-63, 0))
 	})
 	bi("FillBytes", func(x *Exec, fv FuncV, a []Value) Value {
-		s := a[1].(SliceV)
+		s := x.sl(a[1])
 		v := x.bigGet(a[0])
 		n := s.Len
 		if n*8 < bigW {
